@@ -13,19 +13,19 @@ import (
 
 // C06 — servers survive arbitrary peer input.
 //
-//	R-assert            no single-value type assertion on a value decoded from the peer unless a comma-ok test
-//	                    of the same access path and type dominates it (directly or through a validator that
-//	                    returns non-nil exactly on the failing edges and makes the caller return)
-//	R-panic-sites       no explicit panic on server paths except named, reasoned exceptions; no bare send on a
-//	                    shared channel; field channels are closed at most once (Once / CAS / recover)
-//	R-lock-balanced     every mutex acquired on a server path is released on every path to the function's exit
-//	R-lock-order        the lock-order graph of the server code is acyclic; no library lock is held while
-//	                    user code (handlers, filters, middlewares, callbacks) runs
-//	R-nonblocking-send  every channel send on a request path can give up (default arm, ctx/done arm)
-//	R-per-request-growth every server-lifetime collection a request path inserts into has a removal that
-//	                    request paths (or a background sweeper) can reach
-//   R-unbounded-input  no length-limited scanner on peer input
-//   (R-lock-order also reports re-entrant acquisition of one mutex through callees)
+//		R-assert            no single-value type assertion on a value decoded from the peer unless a comma-ok test
+//		                    of the same access path and type dominates it (directly or through a validator that
+//		                    returns non-nil exactly on the failing edges and makes the caller return)
+//		R-panic-sites       no explicit panic on server paths except named, reasoned exceptions; no bare send on a
+//		                    shared channel; field channels are closed at most once (Once / CAS / recover)
+//		R-lock-balanced     every mutex acquired on a server path is released on every path to the function's exit
+//		R-lock-order        the lock-order graph of the server code is acyclic; no library lock is held while
+//		                    user code (handlers, filters, middlewares, callbacks) runs
+//		R-nonblocking-send  every channel send on a request path can give up (default arm, ctx/done arm)
+//		R-per-request-growth every server-lifetime collection a request path inserts into has a removal that
+//		                    request paths (or a background sweeper) can reach
+//	  R-unbounded-input  no length-limited scanner on peer input
+//	  (R-lock-order also reports re-entrant acquisition of one mutex through callees)
 func init() { Registry["C06"] = checkC06 }
 
 // panicException: explicit panics the peer cannot provoke, recognised by what controls them (not by where they are):
